@@ -375,6 +375,8 @@ pub struct Rep {
     hashes_path: Option<String>,
     hashes_written: HashSet<u64>,
     last_flush_evals: u64,
+    pub digest_acc: u64,
+    digest_file: Option<std::io::BufWriter<File>>,
 }
 
 impl Rep {
@@ -386,6 +388,8 @@ impl Rep {
             hashes_path,
             hashes_written: HashSet::new(),
             last_flush_evals: 0,
+            digest_acc: 0,
+            digest_file: None,
             prop: prop.to_string(),
             out,
             evals: 0,
@@ -476,6 +480,18 @@ impl Rep {
         }
     }
 
+    /// Fold an observed outcome into the per-case digest (compared across build profiles).
+    pub fn digest(&mut self, text: &str) {
+        self.digest_acc = mix(&[self.digest_acc, hash_str(text)]);
+    }
+
+    fn digest_case_end(&mut self, ord: usize, idx: u64) {
+        if let Some(f) = self.digest_file.as_mut() {
+            let _ = writeln!(f, "{} {} {:016x}", ord, idx, self.digest_acc);
+        }
+        self.digest_acc = 0;
+    }
+
     /// Label the running case in the journal (so that a crash can be attributed to a class).
     pub fn mark(&mut self, label: &str) {
         let (o, n, i) = (self.cur_ord, self.cur_name.clone(), self.cur_idx);
@@ -495,6 +511,9 @@ impl Rep {
         self.sample_seen = 0;
         let _ = writeln!(self.out, "{}", rec);
         let _ = self.out.flush();
+        if let Some(f) = self.digest_file.as_mut() {
+            let _ = f.flush();
+        }
         if let Some(p) = &self.hashes_path {
             if let Ok(mut f) = std::fs::OpenOptions::new().create(true).append(true).open(p) {
                 let mut buf = Vec::new();
@@ -565,6 +584,19 @@ impl Ctx {
             stage_ord: 0,
             flush_each: false,
         }
+        .with_digest()
+    }
+
+    fn with_digest(mut self) -> Ctx {
+        // `--digest FILE`: per-case outcome digests for the cross-profile comparison
+        if let Some(pos) = self.args.iter().position(|a| a == "--digest") {
+            if let Some(path) = self.args.get(pos + 1) {
+                if let Ok(f) = std::fs::OpenOptions::new().create(true).append(true).open(path) {
+                    self.rep.digest_file = Some(std::io::BufWriter::new(f));
+                }
+            }
+        }
+        self
     }
 
     pub fn quick(&self) -> bool {
@@ -635,6 +667,7 @@ impl Ctx {
                 self.rep.journal_write(ord, name, only_idx, "");
                 let mut rng = Rng::new(mix(&[seed, stage_h, only_idx]));
                 f(only_idx, &mut rng, &mut self.rep);
+                self.rep.digest_case_end(ord, only_idx);
             }
             return;
         }
@@ -644,6 +677,7 @@ impl Ctx {
             self.rep.journal_write(ord, name, idx, "");
             let mut rng = Rng::new(mix(&[seed, stage_h, idx]));
             f(idx, &mut rng, &mut self.rep);
+            self.rep.digest_case_end(ord, idx);
             ran += 1;
             idx += self.nshards;
             if self.flush_each {
